@@ -16,18 +16,32 @@ def norm_hist(hist):
     return [[h[0]] + [x for x in h[1:] if isinstance(x, str)] for h in hist if isinstance(h, tuple) and h[1] != "noop"]
 
 
+# fixed multi-step stories (side, operation) whose schedules are explored more deeply: slots after each operation; 'flip' variants swap the sides
+STORIES = {
+    "create-in-folder-renamed-by-peer-then-edit": ([(0, "create_d_n"), (1, "rendir_d_e"), (0, "write_d_n")], [2, 2, 1], 2),
+    "create-in-folder-removed-by-peer-then-edit": ([(0, "create_d_n"), (1, "rmdir_d"), (0, "write_d_n")], [2, 2, 1], 2),
+    "folder-renamed-recreated-child-moved-back": ([(0, "rendir_d_e"), (0, "mkdir_d"), (0, "mv:/e/a:/d/a")], [1, 1, 2], 3),
+    "child-renamed-then-folder-peer-edits-child": ([(0, "mv:/d/a:/d/b"), (0, "rendir_d_e"), (1, "write_d_a")], [1, 2, 1], 3),
+    "edit-vs-rename-then-edit": ([(0, "write_a"), (1, "rename_a_b"), (0, "write_a")], [2, 2, 1], 1),
+    "renamed-and-back-peer-edits": ([(0, "rename_a_b"), (0, "mv:/b:/a"), (1, "write_a")], [3, 1, 1], 1),
+}
+
+
 def _factory(params, env=None):
     def fn():
         e = env or SymEnv()
         _lab.reset()
         lab = Lab(params["flavour"])
-        if base_tree(lab, params["base"]) is None:
+        story = STORIES[params["story"]] if params.get("story") else None
+        if base_tree(lab, story[2] if story else params["base"]) is None:
             return {"ok": False, "info": {"why": "base tree did not become quiet"}, "sigdata": {"symptom": "base-not-quiet"}}
         hist = []
         real = 0
         first = params.get("first")
         prefix = params.get("prefix") or ([first] if first is not None else [])
-        for k in range(params["nops"]):
+        if story:
+            prefix = [[sd ^ (1 if params.get("flip") else 0), op] for sd, op in story[0]]
+        for k in range(len(prefix) if story else params["nops"]):
             if k < len(prefix):
                 side, op = prefix[k]
             else:
@@ -38,7 +52,7 @@ def _factory(params, env=None):
             hist.append((side,) + tuple(d))
             if d[0] not in ("noop", "failed"):
                 real += 1
-            for j in range(params["slots"]):
+            for j in range(story[1][k] if story else params["slots"]):
                 if params.get("slotmode") == "round":       # coarser schedule: nothing, or one fair round
                     s = e.choose("round", 2)
                     hist.append("r%d" % s)
@@ -52,7 +66,7 @@ def _factory(params, env=None):
                     lab.step(s)
         q = lab.drain()
         key = repr(hist)
-        sd = {"flavour": params["flavour"], "base": params["base"], "ops": norm_hist(hist)}
+        sd = {"flavour": params["flavour"], "base": story[2] if story else params["base"], "ops": norm_hist(hist)}
         if q is None:
             return {"ok": False, "info": {"why": "engine not quiet after 40 fair rounds", "hist": hist}, "sigdata": dict(sd, symptom="no-quiescence")}
         tl, tr = lab.tree(0), lab.tree(1)
@@ -96,7 +110,7 @@ def signature(harness, params, rec):
         return c02.signature("loss", params, rec)
     if rec.get("status") == "exc":
         return {"flavour": params["flavour"], "symptom": rec.get("exc")}
-    return {"flavour": params["flavour"], "base": params["base"], "ops": norm_hist([tuple(h) if isinstance(h, list) else h for h in info.get("hist", [])]),
+    return {"flavour": params["flavour"], "base": params.get("base"), "ops": norm_hist([tuple(h) if isinstance(h, list) else h for h in info.get("hist", [])]),
             "symptom": {"roots differ at quiescence": "diverged", "engine not quiet after 40 fair rounds": "no-quiescence"}.get(info.get("why"), info.get("why"))}
 
 
@@ -136,6 +150,10 @@ def jobs(tier):
                         [[0, "rename_a_c"], [1, "rename_a_b"]], [[1, "rename_a_c"], [0, "rename_a_b"]]):
                 out.append({"harness": "hist", "params": {"flavour": f, "base": 2, "nops": 3, "slots": 1, "prefix": pre, "ext": pre[0][1] == "rename_a_c"},
                             "label": "%s/base2/3ops/prefix=%s" % (f, "+".join("%d:%s" % (a, b) for a, b in pre))})
+    for f in (("oid", "path") if tier == "quick" else ("oid", "path", "mixed")):
+        for name in STORIES:
+            for flip in (False, True):
+                out.append({"harness": "hist", "params": {"flavour": f, "story": name, "flip": flip}, "label": "%s/story=%s%s" % (f, name, "/flipped" if flip else "")})
     # a folder taking a deleted file's name; one copy becoming unreadable while the other side has an unsynced edit
     for f in (("oid", "path") if tier == "quick" else ("oid", "path", "mixed")):
         for side in (0, 1):
